@@ -605,3 +605,157 @@ def _reg_block_lines(name, head, tail):
 from . import C19 as _C19
 _reg_block_lines("loop", _C19.LOOP_HEAD, ("DecInt", "Eol", "End", "Loop"))
 _reg_block_lines("while", _C19.WHILE_HEAD, ("DecInt", "Eol", "End", "While"))
+
+
+# ------------------------------------------------------------------ the parser treats the four integer token kinds alike
+
+INT_KINDS = ("DecInt", "HexInt", "OctInt", "BinInt")
+INT = "<INT>"
+# (name, tokens before the symbolic ones - <INT> marks the literal whose kind is varied -, symbolic tokens, tokens after)
+INT_TEMPLATES = [
+    ("first entry of a row", (INT,), 2, ()),
+    ("second entry of a row", ("DecInt", INT), 1, ()),
+    ("row below a row", ("DecInt", "DecInt", "Eol", INT), 1, ("Eol",)),
+    # (arbitrary tokens inside an expression: exploration did not end within 600 s - the continuation is fixed here)
+    ("parenthesised entry", ("LParen", INT, "RParen", "DecInt", "Eol"), 0, ()),
+    ("right operand", ("LParen", "DecInt", "Plus", INT, "RParen", "DecInt", "Eol"), 0, ()),
+    ("left operand", ("LParen", INT, "Times", "DecInt", "RParen", "DecInt", "Eol"), 0, ()),
+    ("unary operand", ("LParen", "Minus", INT, "RParen"), 1, ()),
+    ("function argument", ("LParen", "Ident", "LParen", INT, "RParen", "RParen"), 1, ()),
+    ("loop bound", ("Loop", "LParen", "Ident", "Comma", INT, "RParen", "Eol"), 0, ("End", "Loop", "Eol")),
+    ("first row of a loop body", ("Loop", "LParen", "Ident", "Comma", "DecInt", "RParen", "Eol", INT), 1, ("Eol", "End", "Loop", "Eol")),
+    ("while condition", ("While", "LParen", INT, "RParen", "Eol"), 0, ("End", "While", "Eol")),
+    ("first row of a while body", ("While", "LParen", "DecInt", "RParen", "Eol", INT), 1, ("Eol", "End", "While", "Eol")),
+    ("repeat bound", ("Repeat", "LParen", INT, "RParen"), 1, ("DecInt", "Eol")),
+    ("repeat row", ("Repeat", "LParen", "DecInt", "RParen", INT), 1, ()),
+    ("let", ("Let", "Ident", "Equal", INT, "Semi", "Eol"), 0, ()),
+    ("declare", ("Declare", "Ident", "Equal", INT, "Semi", "Eol"), 0, ()),
+    ("bits width", ("Bits", "LParen", INT, "Comma", "DecInt", "RParen"), 1, ()),
+    ("bits value", ("Bits", "LParen", "DecInt", "Comma", INT, "RParen"), 1, ()),
+    ("entry after bits", ("Bits", "LParen", "DecInt", "Comma", "DecInt", "RParen", INT), 0, ("Eol",)),
+]
+INT_SAMPLE = {"DecInt": "1", "HexInt": "0x1", "OctInt": "01", "BinInt": "0b1"}
+
+
+def _reg_int_kinds(name, before, nsym, after, tier="quick"):
+    @obligation("C20/int-kinds-alike[%s]" % name, profiles=("dev",), tier=tier,
+                desc="block parser over `%s` + %d arbitrary tokens%s, run once per integer token kind in the marked position: a token "
+                     "sequence is accepted with a decimal literal there iff it is accepted with a hexadecimal, octal or binary "
+                     "one (same other kinds and texts; conversion results free) - no place of the grammar singles out a radix"
+                     % (" ".join(before), nsym, (" + `%s`" % " ".join(after)) if after else ""))
+    def _ob(O, before=before, nsym=nsym, after=after, name=name):
+        m = O.mir
+        pos = list(before).index(INT)
+        f_text = z3.Function("text_of_span", z3.BitVecSort(64), z3.BitVecSort(64), z3.BitVecSort(64))
+        runs = {}
+        for K in INT_KINDS:
+            fixed = tuple(K if t == INT else t for t in before)
+            m_, eng, ts, paths = C09.explore_block(O, nsym, None, None, 2, fixed=fixed, suffix=after,
+                                                   keep_outcomes=lambda oc: oc in ("return", "cut", "unsupported"))
+            acc = []
+            for p in paths:
+                if p.outcome == "cut":
+                    O.inconclusive("loop bound too small (%s): %s" % (K, p.detail))
+                    continue
+                if p.outcome != "return":
+                    continue
+                eng.focus(p)
+                ok = eng.tag_of(p.ret, None) == bv64(0)
+                r, _ = O.solve(list(p.pc) + [ok], want_model=False)
+                if r == "sat":
+                    acc.append((p, ok))
+            runs[K] = (eng, ts, acc)
+        if not runs["DecInt"][2]:
+            O.inconclusive("vacuous: the template is never accepted with a decimal literal")
+        R = rep("integer literals", template=name)
+
+        def render_pair(ts, kinds, sids, Ka, Kb):
+            """(base with Ka, variant with Kb) source texts for the token kinds of the model"""
+            def text(Kx):
+                ks = list(kinds)
+                src = C09.render(m, ks, sids, "A B", True)
+                return src
+            # render() uses one sample text per kind; write the varied literal with a value-equal sample
+            outs = []
+            for Kx in (Ka, Kb):
+                ks = list(kinds)
+                ks[pos] = m.vidx("TokenKind", Kx)
+                toks = []
+                for i, k in enumerate(ks):
+                    nm = kind_name_(m, k)
+                    if i == pos:
+                        toks.append(INT_SAMPLE[Kx])
+                    elif nm in INT_SAMPLE:
+                        toks.append(INT_SAMPLE[nm])
+                    else:
+                        t = C09.SAMPLE.get(nm, "?")
+                        if nm == "Ident" and sids and sids[i] is not None:
+                            for cand in C09.IDENT_TEXTS:
+                                if C09.lit_id(cand) == sids[i]:
+                                    t = cand
+                        toks.append(t)
+                body = ""
+                for t in toks:
+                    if t == "\n":
+                        body += "\n"
+                    else:
+                        body += (" " if body and not body.endswith("\n") else "") + t
+                outs.append("A B\n" + body + "\n")
+            return outs
+
+        def compare(Ka, Kb):
+            enga, tsa, acca = runs[Ka]
+            engb, tsb, accb = runs[Kb]
+            symk = [tsa.kinds[i] for i in tsa.sym]
+            for p, ok in acca:
+                block = []
+                for _ in range(40):
+                    res, mod = O.solve(list(p.pc) + [ok] + block)
+                    if res != "sat":
+                        break
+                    vals = [mval(mod, k, False) for k in symk]
+                    kinds_, sids = C09.token_facts(m, tsa, mod)
+                    same = [k == bv64(v) for k, v in zip(symk, vals)]
+                    for i in range(tsa.n):
+                        if i != pos and sids[i] is not None and kind_name_(m, kinds_[i]) == "Ident":
+                            same.append(f_text(z3.BitVec("tok%d.start" % i, 64), z3.BitVec("tok%d.end" % i, 64)) == bv64(sids[i]))
+                    found = False
+                    for q, okq in accb:
+                        r2, _ = O.solve(list(q.pc) + [okq] + same, want_model=False)
+                        if r2 == "sat":
+                            found = True
+                            break
+                        if r2 == "unknown":
+                            O.inconclusive("solver unknown while matching %s against %s" % (Ka, Kb))
+                            found = True
+                            break
+                    if not found:
+                        base_src, var_src = render_pair(tsa, kinds_, sids, Ka, Kb)
+                        names = [kind_name_(m, k) for k in kinds_]
+                        names[pos] = Ka
+                        O.violation("the token sequence %s is accepted with a %s in position %d but not with a %s" % (
+                                        " ".join(names), Ka, pos, Kb), mod,
+                                    dict(R.facts, what="radix decides acceptance", accepted=Ka, rejected=Kb, position=pos),
+                                    [Scenario(var_src, B.LAYOUT_SIGNALS[:2], max_rows=50, expect={"base": base_src, "line_map": None},
+                                              note="%s: literal %d written as %s instead of %s" % (name, pos, Kb, Ka)),
+                                     Scenario(base_src, B.LAYOUT_SIGNALS[:2], max_rows=50, expect={"base": var_src, "line_map": None},
+                                              note="%s: literal %d written as %s instead of %s" % (name, pos, Ka, Kb))] + R.battery,
+                                    R.judge, "accepted with %s, rejected with %s" % (Ka, Kb))
+                        return
+                    if not symk:
+                        break
+                    block.append(z3.Or([k != bv64(v) for k, v in zip(symk, vals)]))
+        for K in INT_KINDS[1:]:
+            compare("DecInt", K)
+            compare(K, "DecInt")
+        O.note("accepting paths per kind: %s" % {K: len(runs[K][2]) for K in INT_KINDS})
+    return _ob
+
+
+def kind_name_(m, v):
+    from .parsing import kind_name
+    return kind_name(m, v)
+
+
+for _nm, _bf, _ns, _af in INT_TEMPLATES:
+    _reg_int_kinds(_nm, _bf, _ns, _af)
